@@ -3,6 +3,7 @@ package main
 import (
 	"fmt"
 	"go/types"
+	"os"
 	"sort"
 	"strings"
 
@@ -365,4 +366,302 @@ func ruleReshapeTable(c *Ctx, prop string) {
 		return
 	}
 	c.discharge("R35", "R35:reshape-table", c.pos(apply.Pos()), fmt.Sprintf("%d cells (factorizations of the element count with 0 and -1 at every allowed position; two -1, count mismatch, 0 beyond the rank as invalid requests): %d Reshape arguments evaluated, all as ONNX prescribes; no invalid request reaches Reshape with an acceptable shape", cells, ar.reshapes))
+}
+
+// R36 — the broadcast helpers by finite table (C14; C03, C16 through ApplyBinaryOperation)
+//
+// "Two shapes broadcast iff, aligned at their last axes, every pair of extents is equal or contains a 1; the
+// operands then both have the elementwise-maximum shape; unidirectional broadcasting additionally requires the
+// result shape to equal the first operand's; incompatible shapes produce an error; the sources are never
+// modified." The partial interpreter walks ops.MultidirectionalBroadcast / ops.UnidirectionalBroadcast for every
+// ordered pair of shapes of rank 0..3 with extents in {1,2,3,4} (rank 4 in the thorough tier), with tensors
+// modelled by their live shape and gorgonia's Clone / Reshape / Repeat by their shape contracts (Repeat
+// multiplies the extent of the axis). It reports
+//   tiled      Repeat applied to an axis whose extent is not 1 (elements tiled instead of a refusal),
+//   wrong      compatible shapes: an error, or result shapes other than the broadcast shape,
+//   accepted   incompatible shapes: no error,
+//   modified   the shape of a source operand changed.
+// What it does not decide: that Repeat places the elements as ONNX prescribes (gorgonia's contract).
+func ruleBroadcastTable(c *Ctx, prop string) {
+	var multi, uni *ssa.Function
+	for _, f := range c.libFns {
+		if fnPkgPath(f) != pkgOps || f.Parent() != nil || f.Signature.Recv() != nil {
+			continue
+		}
+		switch f.Name() {
+		case "MultidirectionalBroadcast":
+			multi = f
+		case "UnidirectionalBroadcast":
+			uni = f
+		}
+	}
+	if multi == nil || uni == nil {
+		c.undecided("R36", "R36:broadcast-table", "", "ops.MultidirectionalBroadcast / ops.UnidirectionalBroadcast not found")
+		return
+	}
+	maxRank := 3
+	if c.tier == "thorough" {
+		maxRank = 4
+	}
+	var shapes [][]int64
+	var gen func(cur []int64, r int)
+	gen = func(cur []int64, r int) {
+		if len(cur) == r {
+			shapes = append(shapes, append([]int64{}, cur...))
+			return
+		}
+		for e := int64(1); e <= 4; e++ { // 2 and 4: an extent that is a multiple of the other one must be refused too
+			gen(append(cur, e), r)
+		}
+	}
+	for r := 0; r <= maxRank; r++ {
+		gen(nil, r)
+	}
+	bshape := func(a, b []int64) ([]int64, bool) {
+		n := len(a)
+		if len(b) > n {
+			n = len(b)
+		}
+		out := make([]int64, n)
+		for i := 0; i < n; i++ {
+			x, y := int64(1), int64(1)
+			if j := len(a) - n + i; j >= 0 {
+				x = a[j]
+			}
+			if j := len(b) - n + i; j >= 0 {
+				y = b[j]
+			}
+			switch {
+			case x == y:
+				out[i] = x
+			case x == 1:
+				out[i] = y
+			case y == 1:
+				out[i] = x
+			default:
+				return nil, false
+			}
+		}
+		return out, true
+	}
+	for _, ent := range []struct {
+		fn   *ssa.Function
+		name string
+		uni  bool
+	}{{multi, "multidirectional", false}, {uni, "unidirectional", true}} {
+		bad, badPos, cells, evaluated := "", c.pos(ent.fn.Pos()), 0, 0
+		covered := map[*ssa.Function]bool{}
+		for _, a := range shapes {
+			for _, b := range shapes {
+				cells++
+				heap := &pheap{lists: map[int64][]pval{}, poison: map[int64]bool{}}
+				mk := func(l []int64) pval {
+					pl := make([]pval, len(l))
+					for i, v := range l {
+						pl[i] = pval{k: pInt, i: v}
+					}
+					return heap.alloc(pl)
+				}
+				la, lb := mk(a), mk(b)
+				iota_ := func(n int64) []int64 {
+					l := make([]int64, n)
+					for i := range l {
+						l[i] = int64(i)
+					}
+					return l
+				}
+				A, B := pval{k: pShaped, i: 0, j: la.i, m: mk(iota_(prodInts(a))).i}, pval{k: pShaped, i: 1, j: lb.i, m: mk(iota_(prodInts(b))).i}
+				p := &pinterp{c: c, budget: 300000}
+				tiled := ""
+				p.onRepeat = func(fn *ssa.Function, call *ssa.Call, shape []int64, axis, n int64) {
+					if shape[axis] != 1 && tiled == "" {
+						tiled = fmt.Sprintf("tensor.Repeat along axis %d of a tensor of shape %s (extent %d, not 1) at %s", axis, fmtInts(shape), shape[axis], c.pos(call.Pos()))
+					}
+				}
+				res, h := p.run(ent.fn, []pval{A, B}, 0, heap)
+				for f := range p.visited {
+					covered[f] = true
+				}
+				desc := fmt.Sprintf("%s broadcast of shapes %s and %s", ent.name, fmtInts(a), fmtInts(b))
+				want, ok := bshape(a, b)
+				if ent.uni && ok && fmtInts(want) != fmtInts(a) {
+					ok = false
+				}
+				set := func(s string) {
+					if bad == "" {
+						bad = s
+					}
+				}
+				if tiled != "" {
+					set(desc + ": " + tiled + " — the elements are tiled instead of the shapes being refused")
+					continue
+				}
+				if len(res) != 3 || h == nil {
+					if os.Getenv("R36DEBUG") != "" {
+						fmt.Printf("R36DEBUG unfollowed %s: res=%v heap=%v aborted=%v\n", desc, res, h != nil, p.aborted)
+					}
+					continue // the walk could not follow this cell to a single outcome: nothing is claimed for it
+				}
+				shapeOf := func(v pval) ([]int64, bool) {
+					if v.k != pShaped {
+						return nil, false
+					}
+					l := h.lists[v.j]
+					if l == nil {
+						return nil, false
+					}
+					out := make([]int64, len(l))
+					for i, e := range l {
+						if e.k != pInt {
+							return nil, false
+						}
+						out[i] = e.i
+					}
+					return out, true
+				}
+				if os.Getenv("R36DEBUG") != "" && !nonNilKind(res[2].k) && res[2].k != pNil {
+					fmt.Printf("R36DEBUG undecided %s: res=%v\n", desc, res)
+				}
+				if nonNilKind(res[2].k) {
+					res[2].k = pNonNil
+				}
+				switch res[2].k {
+				case pNonNil:
+					evaluated++
+					if ok {
+						set(desc + ": refused with an error although the shapes are compatible")
+					}
+				case pNil:
+					evaluated++
+					if !ok {
+						set(desc + ": accepted without an error although the shapes are incompatible")
+						continue
+					}
+					sa, oka := shapeOf(res[0])
+					sb, okb := shapeOf(res[1])
+					if !oka || !okb {
+						evaluated--
+						continue
+					}
+					if fmtInts(sa) != fmtInts(want) || fmtInts(sb) != fmtInts(want) {
+						set(fmt.Sprintf("%s: the results have shapes %s and %s, the broadcast shape is %s", desc, fmtInts(sa), fmtInts(sb), fmtInts(want)))
+						continue
+					}
+					// the element at every index is the source element at that index, stretched axes pinned to 0
+					for k, rv := range []pval{res[0], res[1]} {
+						src := [][]int64{a, b}[k]
+						content := h.lists[rv.m]
+						if rv.m == 0 || content == nil || int64(len(content)) != prodInts(want) {
+							continue
+						}
+						wst := make([]int64, len(want))
+						acc := int64(1)
+						for i := len(want) - 1; i >= 0; i-- {
+							wst[i] = acc
+							acc *= want[i]
+						}
+						sst := make([]int64, len(src))
+						acc = 1
+						for i := len(src) - 1; i >= 0; i-- {
+							sst[i] = acc
+							acc *= src[i]
+						}
+						off := len(want) - len(src)
+						for f := int64(0); f < int64(len(content)); f++ {
+							exp := int64(0)
+							for i := range want {
+								cidx := (f / wst[i]) % want[i]
+								if j := i - off; j >= 0 && src[j] != 1 {
+									exp += cidx * sst[j]
+								}
+							}
+							if content[f].k != pInt {
+								break
+							}
+							if content[f].i != exp {
+								set(fmt.Sprintf("%s: element %d of result operand %d is source element %d, the broadcast definition asks for source element %d (stretched axes pinned to 0)", desc, f, k, content[f].i, exp))
+								break
+							}
+						}
+					}
+				}
+				for _, src := range []struct {
+					l  pval
+					sh []int64
+				}{{la, a}, {lb, b}} {
+					cur := h.lists[src.l.i]
+					same := cur != nil && len(cur) == len(src.sh)
+					if same {
+						for i, e := range cur {
+							if e.k != pInt || e.i != src.sh[i] {
+								same = false
+							}
+						}
+					}
+					if !same {
+						set(desc + ": the shape of a source operand is changed")
+					}
+				}
+			}
+		}
+		key := "R36:broadcast-table:" + ent.name
+		c.counts["R36.cells"] += cells
+		c.counts["R36.cells_evaluated"] += evaluated
+		switch {
+		case bad != "":
+			c.violate("R36", key, badPos, bad)
+		case evaluated < cells*9/10:
+			c.undecided("R36", key, badPos, fmt.Sprintf("only %d of %d shape pairs could be followed to a single outcome: the helpers' factoring is not recognised by the interpreter", evaluated, cells))
+		default:
+			c.discharge("R36", key, badPos, fmt.Sprintf("%d ordered shape pairs (rank 0..%d, extents 1..4): compatible pairs yield the broadcast shape for both operands, incompatible pairs an error, Repeat only ever stretches an axis of extent 1, the sources keep their shapes", cells, maxRank))
+			if c.tableCovered == nil {
+				c.tableCovered = map[string]string{}
+			}
+			for f := range covered {
+				if _, seen := c.tableCovered[fname(f)]; !seen {
+					c.tableCovered[fname(f)] = key
+				}
+			}
+			c.tableCovered["table:"+ent.name] = key
+		}
+	}
+}
+
+// applyTableOverrides: a structural rule that cannot recognise the factoring of a function says "violated" or
+// "undischarged" — which is a false alarm when the code is right. Where a finite table has walked that very
+// function and found the clause to hold for every cell, the table decides: the structural obligation becomes
+// a note that names the table. Nothing is overridden when the table itself failed or did not run.
+func (c *Ctx) applyTableOverrides(from int) {
+	if len(c.tableCovered) == 0 {
+		return
+	}
+	multi, uni := c.tableCovered["table:multidirectional"], c.tableCovered["table:unidirectional"]
+	for i := from; i < len(c.obls); i++ {
+		o := &c.obls[i]
+		if o.Control || (o.Status != StViolated && o.Status != StUndecided) {
+			continue
+		}
+		table := ""
+		switch {
+		case strings.HasPrefix(o.Key, "R10:repeat:"), strings.HasPrefix(o.Key, "R23:axis-loop:"):
+			fn := strings.TrimPrefix(strings.TrimPrefix(o.Key, "R10:repeat:"), "R23:axis-loop:")
+			if j := strings.Index(fn, "#"); j >= 0 {
+				fn = fn[:j]
+			}
+			table = c.tableCovered[fn]
+		case o.Key == "R23:floor", o.Key == "R20:adddims:ones-prepended":
+			if multi != "" && uni != "" {
+				table = multi + " and " + uni
+			}
+		case strings.HasPrefix(o.Key, "R20:multidir:"):
+			table = multi
+		case strings.HasPrefix(o.Key, "R20:unidir:"):
+			table = uni
+		}
+		if table == "" {
+			continue
+		}
+		o.Status = StNote
+		o.Why = "structural pattern not recognised (" + o.Why + "); the clause is decided by the finite table " + table + ", which walked this code for every shape pair and found it right"
+	}
 }
